@@ -776,8 +776,9 @@ class Emitter:
             x, y = self.const_int(a), self.const_int(b)
             t = self.mod.resolve(c.ty)
             bits = t.a if t.k == 'int' else 64
+            sh = y & 127
             r = {'add': x + y, 'sub': x - y, 'mul': x * y, 'and': x & y, 'or': x | y, 'xor': x ^ y,
-                 'shl': x << y, 'lshr': x >> y}[op]
+                 'shl': x << sh, 'lshr': x >> sh}[op]
             return r & ((1 << bits) - 1)
         raise Unsupported('const_int of ' + c.k)
 
